@@ -1005,3 +1005,76 @@ def rule_directive_splice(m, rid):
         r.fail("get_source_item|directive-splice", "get_source_item: the physical lines %r are spliced to %r; deleting backslash-newline gives %r "
                "(%d table rows disagree)" % (phys, got, want, len(bad)), m.loc(f, block[0]))
     return r
+
+
+# ------------------------------------------------------------------------------------------------
+# handle_inline_comment as a decision table (C11.R10 / C04.R9 / C12.R8 / C02.R14)
+# ------------------------------------------------------------------------------------------------
+# (line, quote state on entry) -> (code kept, quote state on exit, comment texts queued)
+INLINE_TABLE = [
+    ("x = 1", None, "x = 1", None, []),
+    ("x = 1 ! c", None, "x = 1 ", None, ["! c"]),
+    ("! whole line", None, "", None, ["! whole line"]),
+    ("   ! indented", None, "   ", None, ["! indented"]),
+    ("x = 'a!b'", None, "x = 'a!b'", None, []),
+    ("x = 'a!b' ! c", None, "x = 'a!b' ", None, ["! c"]),
+    ("x = \"a!b\" ! c 'q", None, "x = \"a!b\" ", None, ["! c 'q"]),
+    ("x = 'it''s' ! c", None, "x = 'it''s' ", None, ["! c"]),
+    ("x = 'a' // 'b!' ! c", None, "x = 'a' // 'b!' ", None, ["! c"]),
+    ("x = 'a' // \"it's ! not\" ! c", None, "x = 'a' // \"it's ! not\" ", None, ["! c"]),
+    ("x = \"say 'hi!'\" ! c", None, "x = \"say 'hi!'\" ", None, ["! c"]),
+    ("x = 'open ! not a comment", None, "x = 'open ! not a comment", "'", []),
+    ("still ! inside' ! c", "'", "still ! inside' ", None, ["! c"]),
+    ("still ! inside", "'", "still ! inside", "'", []),
+    ("y = 1 ! it's", None, "y = 1 ", None, ["! it's"]),
+    ("y = 1 !! double", None, "y = 1 ", None, ["!! double"]),
+    ("y = '!' ; z = \"!\" ! c", None, "y = '!' ; z = \"!\" ", None, ["! c"]),
+    ("x = \"it's\" // 'a!b'", None, "x = \"it's\" // 'a!b'", None, []),
+    ("x = 'say \"hi' // \"a!b\" ! c", None, "x = 'say \"hi' // \"a!b\" ", None, ["! c"]),
+    ("x = \"it's\" // 'a!b' ! it's", None, "x = \"it's\" // 'a!b' ", None, ["! it's"]),
+]
+
+
+def rule_inline_table(m, rid):
+    from sa import pureeval as PE
+    from rules import regex_rules as RR
+    r = RuleResult(rid, "handle_inline_comment decided as a table: a '!' starts a comment exactly when it is outside every character literal "
+                        "(doubled quotes, the other quote kind, a literal continued from the previous line), the code before it is kept "
+                        "unchanged and the comment text is queued unchanged")
+    r.floor = 12
+    f = reader_func(m, "handle_inline_comment")
+
+    class String(str):
+        pass
+    ev = RR.evaluator_with_funcs(m, "fparser.common.splitline")
+    ev.g["String"] = String
+    ev.g.update(PE.module_regexes(m, RF))
+    bad = []
+    try:
+        for line, q_in, want_code, want_q, want_comments in INLINE_TABLE:
+            r.instances += 1
+            queued = []
+            fmt = PE.Obj({"is_f77": False, "f2py_enabled": False, "is_fixed": False})
+            me = PE.Obj({"fifo_item": PE.Obj({"append": queued.append}), "format": fmt, "_format": fmt, "f2py_comment_lines": [],
+                         "comment_item": lambda text, a=None, b=None, inline_comment=False: ("comment", text, inline_comment)})
+            me.fields["handle_inline_comment"] = lambda l_, n_, q_=None, b_=True: ev.run_function(f.node, [me, l_, n_, q_, b_])
+            try:
+                got = ev.run_function(f.node, [me, line, 7, q_in])
+            except PE.PyRaise as err:
+                got = ("raises", err.exc_type, None)
+            comments = [c[1] for c in queued]
+            ok = isinstance(got, tuple) and len(got) == 3 and got[0] == want_code and got[1] == want_q and comments == want_comments \
+                and bool(got[2]) == bool(want_comments)
+            r.ob(ok, "%r [%s] -> %r, comments %r" % (line, q_in, got[:2] if isinstance(got, tuple) else got, comments) if r.instances % 3 == 0 else None)
+            if not ok:
+                bad.append((line, q_in, got, comments, want_code, want_q, want_comments))
+    except PE.Unsupported as err:
+        r.error("handle_inline_comment cannot be interpreted statically (%s)" % err)
+        return r
+    if bad:
+        line, q_in, got, comments, wc, wq, wcm = bad[0]
+        r.fail("handle_inline_comment|table|%s" % line[:20], "handle_inline_comment(%r, quote state %r) keeps %r with quote state %r and queues %r; "
+               "expected %r, %r and %r (%d table rows disagree): a '!' inside a literal is taken for a comment, or a comment for literal text"
+               % (line, q_in, got[0] if isinstance(got, tuple) else got, got[1] if isinstance(got, tuple) else None, comments, wc, wq, wcm, len(bad)),
+               m.loc(f))
+    return r
